@@ -77,22 +77,22 @@ class Report:
 
 def handle_function(rep, mod, env, c, budget, lock):
     r = verify.verify_function(env, c, budget_ms=budget)
-    fninfo = {'function': c.target, 'source': r.src, 'status': r.status, 'paths': r.paths,
+    fninfo = {'function': c.label, 'source': r.src, 'status': r.status, 'paths': r.paths,
               'wall_s': round(r.wall, 2), 'covers': r.covers}
     rep.functions.append(fninfo)
     rep.drops.extend(r.drops)
     if r.status == 'error':
-        rep.errors.append('%s: %s' % (c.target, r.detail))
+        rep.errors.append('%s: %s' % (c.label, r.detail))
         return
     if r.status == 'unsupported':
-        rep.undecided.append({'obligation': c.target, 'why': 'unsupported construct: ' + r.detail})
+        rep.undecided.append({'obligation': c.label, 'why': 'unsupported construct: ' + r.detail})
         return
     if not r.obligations:
-        rep.errors.append('%s: zero obligations generated' % c.target)
+        rep.errors.append('%s: zero obligations generated' % c.label)
         return
     if r.missing_covers:
         rep.errors.append('%s: vacuity guard failed, outcomes not reachable: %s'
-                          % (c.target, r.missing_covers))
+                          % (c.label, r.missing_covers))
     seen_names = set()
     refuted = {}
     for o in r.obligations:
@@ -106,25 +106,44 @@ def handle_function(rep, mod, env, c, budget, lock):
             slot['count'] += 1
             slot['seconds'] += o.get('time') or 0.0
             if len(rep.samples) < 4 and be != 'trivial':
-                rep.samples.append({'obligation': '%s :: %s' % (c.target, o['name']),
+                rep.samples.append({'obligation': '%s :: %s' % (c.label, o['name']),
                                     'outcome_of_path': o['where'], 'answer': 'unsat', 'backend': be})
         elif o['answer'] == 'sat':
             refuted.setdefault(bn, []).append(o)
         else:
-            rep.undecided.append({'obligation': '%s :: %s' % (c.target, o['name']),
+            rep.undecided.append({'obligation': '%s :: %s' % (c.label, o['name']),
                                   'why': '%s (%s)' % (o['answer'], o.get('detail'))})
-    want = set(lock.get(c.target, []))
+    want = set(lock.get(c.label, []))
     for missing in sorted(want - seen_names):
-        rep.undecided.append({'obligation': '%s :: %s' % (c.target, missing),
+        rep.undecided.append({'obligation': '%s :: %s' % (c.label, missing),
                               'why': 'obligation of the unchanged tree was not generated'})
     fninfo['obligation_names'] = sorted(seen_names)
+    n_und = len(rep.undecided)
     for bn, obs in refuted.items():
         decide_refuted(rep, mod, c, bn, obs)
+    mine = [u for u in rep.undecided if u['obligation'].startswith(c.label)]
+    if mine and hasattr(mod, 'bounded_for') and not any(
+            v['key'].startswith('obligation:%s:' % c.label) for v in rep.violations):
+        # the proof is stuck: search the real function for a failing input (bounded stand-in)
+        try:
+            bfail = mod.bounded_for(c, rep.tier, rep.seed)
+        except Exception as e:
+            bfail = None
+            rep.errors.append('bounded_for %s: %r' % (c.label, e))
+        if bfail:
+            bn = base_name(mine[0]['obligation'].split(' :: ', 1)[-1])
+            key = 'obligation:%s:%s' % (c.label, bn)
+            path = write_replay(rep.pid, key, {
+                'property': rep.pid, 'obligation': mine[0]['obligation'],
+                'input': bfail.get('input'), 'native_result': bfail,
+                'found_by': 'bounded search after an undecided obligation'})
+            rep.violations.append({'key': key, 'what': '%s fails its contract' % c.label,
+                                   'replay': path, 'input': bfail.get('input'), 'noinput': False})
 
 
 def decide_refuted(rep, mod, c, bn, obs):
     """A refuted obligation: replay the counterexample(s) on the real code."""
-    key = 'obligation:%s:%s' % (c.target, bn)
+    key = 'obligation:%s:%s' % (c.label, bn)
     confirmed = None
     spurious = 0
     for o in obs[:8]:
@@ -143,10 +162,10 @@ def decide_refuted(rep, mod, c, bn, obs):
     if confirmed:
         o, rr = confirmed
         path = write_replay(rep.pid, key, {
-            'property': rep.pid, 'obligation': '%s :: %s' % (c.target, o['name']),
+            'property': rep.pid, 'obligation': '%s :: %s' % (c.label, o['name']),
             'input': o['model'], 'native_result': rr, 'smt2': o.get('smt2'),
             'how_to_replay': './check %s --replay <this file>' % rep.pid})
-        rep.violations.append({'key': key, 'what': '%s fails %s' % (c.target, bn), 'replay': path,
+        rep.violations.append({'key': key, 'what': '%s fails %s' % (c.label, bn), 'replay': path,
                                'input': o['model'], 'noinput': False})
         return
     # no confirmed input: fall back on the bounded search of the same contract
@@ -155,35 +174,35 @@ def decide_refuted(rep, mod, c, bn, obs):
         try:
             bfail = mod.bounded_for(c, rep.tier, rep.seed)
         except Exception as e:
-            rep.errors.append('bounded_for %s: %r' % (c.target, e))
+            rep.errors.append('bounded_for %s: %r' % (c.label, e))
     if bfail:
         path = write_replay(rep.pid, key, {
-            'property': rep.pid, 'obligation': '%s :: %s' % (c.target, bn),
+            'property': rep.pid, 'obligation': '%s :: %s' % (c.label, bn),
             'input': bfail.get('input'), 'native_result': bfail, 'found_by': 'bounded search',
             'smt2': obs[0].get('smt2')})
-        rep.violations.append({'key': key, 'what': '%s fails %s' % (c.target, bn), 'replay': path,
+        rep.violations.append({'key': key, 'what': '%s fails %s' % (c.label, bn), 'replay': path,
                                'input': bfail.get('input'), 'noinput': False})
         return
     if spurious and not top_level:
-        rep.undecided.append({'obligation': '%s :: %s' % (c.target, bn),
+        rep.undecided.append({'obligation': '%s :: %s' % (c.label, bn),
                               'why': 'auxiliary obligation refuted; model replays fine natively'})
         return
     if spurious:
-        rep.undecided.append({'obligation': '%s :: %s' % (c.target, bn),
+        rep.undecided.append({'obligation': '%s :: %s' % (c.label, bn),
                               'why': 'refuted, but the counterexample satisfies the contract when '
                                      'replayed on the real function (encoding artefact)'})
         return
     if top_level:
         o = obs[0]
         path = write_replay(rep.pid, key, {
-            'property': rep.pid, 'obligation': '%s :: %s' % (c.target, o['name']),
+            'property': rep.pid, 'obligation': '%s :: %s' % (c.label, o['name']),
             'input': None, 'solver_model': o.get('model'), 'smt2': o.get('smt2'),
             'note': 'the verifier refuted this obligation; no failing input could be '
                     'reconstructed for the real function'})
-        rep.violations.append({'key': key, 'what': '%s fails %s' % (c.target, bn), 'replay': path,
+        rep.violations.append({'key': key, 'what': '%s fails %s' % (c.label, bn), 'replay': path,
                                'noinput': True})
     else:
-        rep.undecided.append({'obligation': '%s :: %s' % (c.target, bn),
+        rep.undecided.append({'obligation': '%s :: %s' % (c.label, bn),
                               'why': 'auxiliary obligation refuted, no input found'})
 
 
@@ -312,7 +331,7 @@ def do_replay(pid, path):
         env = mod.base_env()
         res = None
         for c in mod.contracts(env):
-            if data.get('obligation', '').startswith(c.target) and c.replay and data.get('input'):
+            if data.get('obligation', '').startswith(c.label) and c.replay and data.get('input'):
                 res = c.replay(data['input'])
     print(json.dumps(res, indent=1, default=str))
     if res is None:
@@ -321,6 +340,8 @@ def do_replay(pid, path):
 
 
 def main(argv=None):
+    import logging
+    logging.disable(logging.CRITICAL)
     ap = argparse.ArgumentParser()
     ap.add_argument('pid')
     ap.add_argument('--tier', default=os.environ.get('VERIF_TIER', 'quick'))
